@@ -555,3 +555,21 @@ fn c08_o1e_error_tally_step() {
 fn c08_o1f_error_tally_step3() {
     tally_step(3);
 }
+
+
+impl PutQuery {
+    /// composite harnesses (handle_response): a put with one request in flight under `tid`
+    pub(crate) fn kani_track(&mut self, tid: u32) {
+        self.inflight_requests.push(tid);
+    }
+    pub(crate) fn kani_acks(&self) -> usize {
+        self.stored_at
+    }
+    /// (number of distinct error codes tallied, count of the first entry, code of the first entry)
+    pub(crate) fn kani_errors(&self) -> (usize, usize, i32) {
+        match self.errors.first() {
+            Some((n, e)) => (self.errors.len(), *n, e.code),
+            None => (0, 0, 0),
+        }
+    }
+}
